@@ -211,8 +211,8 @@ fn show(c: &Case) -> serde_json::Value {
 
 fn stages(tier: Tier) -> Vec<Box<dyn Stage>> {
     vec![
-        gen_stage_show("inproc", RULE, tier.pick(8000, 200_000), 800, case_strategy, |c, ctx| check(c, ctx, if c.k <= 31 && c.samples.len() % 2 == 0 { Route::InProc64 } else { Route::InProc128 }), show),
-        gen_stage_show("cli", RULE, tier.pick(800, 12_000), 200, case_strategy, |c, ctx| check(c, ctx, Route::Cli), show),
+        gen_stage_show("inproc", RULE, tier.pick(16_000, 300_000), 800, case_strategy, |c, ctx| check(c, ctx, if c.k <= 31 && c.samples.len() % 2 == 0 { Route::InProc64 } else { Route::InProc128 }), show),
+        gen_stage_show("cli", RULE, tier.pick(1600, 24_000), 200, case_strategy, |c, ctx| check(c, ctx, Route::Cli), show),
     ]
 }
 
